@@ -22,6 +22,12 @@ type syncState struct {
 	hasVal      bool
 }
 
+type uniqueEnt struct {
+	typ types.Type
+	val Value
+	ptr PtrV
+}
+
 type guardDecl struct {
 	data PtrV
 	mu   PtrV
@@ -969,6 +975,29 @@ func registerIntrinsics(e *Engine) {
 			return concStr(strconv.FormatInt(ex.termInt64(t), 10))
 		}
 		return ex.callBody(fn, a)
+	}
+
+	// unique.Make: canonical handle per distinct value
+	I["unique.Make"] = func(ex *Exec, fn *ssa.Function, a []Value) Value {
+		vt := fn.Signature.Params().At(0).Type()
+		for _, u := range ex.uniqueTab {
+			if types.Identical(u.typ, vt) {
+				if c := ex.eqValue(u.val, a[0], vt); c.isConst && c.u == 1 {
+					return &StructV{f: []Value{u.ptr}}
+				}
+			}
+		}
+		o := ex.newObj(vt, "unique")
+		o.val = a[0]
+		p := PtrV{obj: o}
+		ex.uniqueTab = append(ex.uniqueTab, uniqueEnt{typ: vt, val: a[0], ptr: p})
+		return &StructV{f: []Value{p}}
+	}
+	I["math/rand.NewSource"] = func(ex *Exec, fn *ssa.Function, a []Value) Value {
+		rp := e.prog.ImportedPackage("math/rand")
+		st := rp.Type("rngSource").Type()
+		o := ex.newObj(st, "rngSource(unseeded model)")
+		return IfaceV{typ: types.NewPointer(st), val: PtrV{obj: o}}
 	}
 
 	// ---- crypto as uninterpreted functions ----
